@@ -6,8 +6,8 @@ if [ "$kind" = benign ]; then
   wt=/tmp/bn/wt_$P
   for s in $wt/benign/*/; do [ -f "$s/patch.diff" ] && [ -f "$s/equiv.py" ] || continue; ./benign_import.sh "$P" "$s" nosuite; done
 else
-  wt=/tmp/seed5/wt_$P
-  for s in $wt/seeded/*/; do [ -f "$s/patch.diff" ] && [ -f "$s/demo.py" ] || continue; SLUG_PREFIX=r5- ./seed_import.sh "$P" "$s"; done
+  wt=/tmp/${SEED_DIR:-seed5}/wt_$P
+  for s in $wt/seeded/*/; do [ -f "$s/patch.diff" ] && [ -f "$s/demo.py" ] || continue; SLUG_PREFIX=${SEED_PREFIX:-r5-} ./seed_import.sh "$P" "$s"; done
 fi 2>&1 | grep -E "^C[0-9]+ |PATCH"
 git -C /repo worktree remove --force "$wt" 2>/dev/null
 [ -d "${wt}_clean" ] && git -C /repo worktree remove --force "${wt}_clean" 2>/dev/null
